@@ -21,6 +21,21 @@ fitness entry per agent and generation; with elitism the best agent arrives in s
 evaluation networks (always through selection; through mutation when `mutate_elite=False`);
 checkpoint files exist under the documented names.
 
+Evolution step (suite `evolution-step`): the real `tournament_selection_and_mutation` is called several times in a row
+on small real populations (DQN, PPO, MADDPG; 1-6 members; fitness / steps histories of different lengths;
+`mutate_elite`, `elitism`, `save_elite`, `elite_path`, explicit `algo` on and off); `tournament.select`, the
+population-level `rng.choice` and every mutation method are wrapped (never replaced) to record which objects flow
+where.  Compared per member with `Loop.Evo.evoStep` re-stated on the recorded select outcome and draw (position in the
+selected population, parent, index, fitness and steps histories, method applied, files written) and with
+`Loop.select` / `Loop.mutate` through the driver; oracle: size, distinct indices, the result IS the selected
+population (object identity, no member of the old one), every method applied once to the member of its position,
+histories untouched, with `mutate_elite=False` member 0 is the elite's clone with `mut == "None"` and bit-equal
+evaluation networks.  `Gen/EvoStepGen.lean` is regenerated from utils.py / mutation.py in `pre_gate`.
+Further dimensions of the train-loops suite: runs that end by early stop in every loop (steps histories of 98-100
+entries), offline datasets smaller than / between 1x and 2x / more than 2x / many times the memory capacity,
+degenerate sizes (batch_size 1, num_envs 1, population 1, learn_step 1 with uniform, n-step, prioritised memories) with
+a check that every batch handed to `learn()` has `agent.batch_size` rows.
+
 Every training run happens in a worker process watched by the parent: a run that exceeds its
 wall-clock allowance is killed and reported ("does not terminate"), it never hangs the harness.
 """
@@ -49,6 +64,7 @@ BASE = dict(
     tm=False, elitism=True, mutate_elite=True, tsize=2, mut="mixed", ckpt=None, overwrite=False,
     episode_steps=10, eval_steps=3, eval_loop=1, target=None, seed=0, strict=True, fault=None,
     ep_len=7, via="build", timeout=120, ls_spread=0,
+    dataset_n=None, hist_len=0,
     budgets=None, start_steps=0, start_spread=0, start_hist=False, bs_spread=0, lr_spread=0.0, ep_mode="stagger", squash=False, indices=None,
 )
 
@@ -103,6 +119,7 @@ class _Rec:
         self.resets = 0
         self.form = None
         self.learn_raised = None
+        self.batch_problem = None      # first learn() call whose batch does not have agent.batch_size rows
         self.enabled = True
         self.events = []               # (envs_train.Recorder API)
 
@@ -143,6 +160,25 @@ class _Rec:
 
     def reset(self):
         pass
+
+
+def _batch_problem(agent, experiences, kwargs):
+    """what the off-policy loops hand to learn(): TensorDict batches (the 1-step batch and, with an n-step memory, the
+    n-step batch) of exactly `agent.batch_size` rows, every entry with that leading dimension"""
+    from tensordict import TensorDictBase
+    bs = int(getattr(agent, "batch_size", 0) or 0)
+    if not bs:
+        return None
+    for name, td in (("experiences", experiences), ("n_experiences", kwargs.get("n_experiences"))):
+        if not isinstance(td, TensorDictBase):
+            continue
+        if tuple(td.batch_size) != (bs,):
+            return f"learn() received {name} with batch_size {tuple(td.batch_size)} for agent.batch_size={bs}"
+        for k in td.keys(True, True):
+            v = td.get(k)
+            if hasattr(v, "shape") and (len(v.shape) == 0 or v.shape[0] != bs):
+                return f"learn() received {name}[{k!r}] of shape {tuple(v.shape)} for agent.batch_size={bs}"
+    return None
 
 
 def _form_of(experiences, kwargs) -> str:
@@ -212,6 +248,11 @@ def _hooks(rec: _Rec, cls, train_mod, cfg):
             rec.form = _form_of(experiences, k)
         s = rec._slot(self)
         s["learns"] += 1
+        if rec.batch_problem is None and rec.loop in ("off", "offline"):
+            try:
+                rec.batch_problem = _batch_problem(self, experiences, k)
+            except Exception as e:   # noqa: BLE001 - the observation must never change the run
+                rec.batch_problem = None
         if rec.loop == "offline":
             self.verif_env = int(getattr(self, "verif_env", 0)) + 1
             s["env"] += 1
@@ -386,6 +427,10 @@ def execute(cfg: dict) -> dict:
     import torch
 
     torch.set_num_threads(1)
+    if cfg.get("task") == "evo":
+        return execute_evo(cfg)
+    if cfg.get("task") == "evo-accel":
+        return execute_evo_accel(cfg)
     import envs_train as E
 
     cfg = full(cfg)
@@ -438,7 +483,8 @@ def execute(cfg: dict) -> dict:
             fn = tm_.train_offline
             env = E.make_single_env(fam, kind, cfg["num_envs"], cfg["ep_len"], cfg["ep_mode"])
             memory = ReplayBuffer(cfg["cap"])
-            args = (env, "scripted", E.offline_dataset(fam, kind), algo, pop, memory)
+            dataset = E.offline_dataset(fam, kind, int(cfg["dataset_n"])) if cfg["dataset_n"] else E.offline_dataset(fam, kind)
+            args = (env, "scripted", dataset, algo, pop, memory)
         elif loop == "bandit":
             from agilerl.training import train_bandits as tm_
             fn = tm_.train_bandits
@@ -465,6 +511,25 @@ def execute(cfg: dict) -> dict:
         if cfg["fault"] == "steps+1":
             fn, ns = _faulty_train_fn(fn, "steps += num_envs", "steps += 1")
             target_mod = _NS(ns)
+        elif cfg["fault"] == "early-stop-drops-row":
+            # the generation in which the early stop fires loses its fitness row
+            fn, ns = _faulty_train_fn(fn, "pop_fitnesses.append(fitnesses)",
+                                      "pop_fitnesses.append(fitnesses) if len(pop[0].steps) < 99 else None")
+            target_mod = _NS(ns)
+        elif cfg["fault"] == "offline-load-overflow":
+            # loading the dataset fails once it no longer fits the memory twice
+            fn, ns = _faulty_train_fn(fn, "dataset_length = dataset[\"rewards\"].shape[0]",
+                                      "dataset_length = dataset[\"rewards\"].shape[0]\n"
+                                      "        assert dataset_length - 1 <= 2 * memory.max_size, 'dataset does not fit'")
+            target_mod = _NS(ns)
+        elif cfg["fault"] == "nstep-unbatched":
+            # a batch of one n-step transition loses its batch axis
+            def _unbatched(self_, idxs, _o=MultiStepReplayBuffer.sample_from_indices):
+                out = _o(self_, idxs)
+                return out[0] if out.batch_size and out.batch_size[0] == 1 else out
+            nsm_fault = kw.get("n_step_memory")
+            if nsm_fault is not None:
+                nsm_fault.sample_from_indices = _unbatched.__get__(nsm_fault)
         cls = type(pop[0])
         pop_pos = 4 if loop == "offline" else 3
         nsm_ = kw.get("n_step_memory")
@@ -474,6 +539,11 @@ def execute(cfg: dict) -> dict:
                 s0 = int(cfg["start_steps"]) + i * int(cfg["start_spread"])
                 a.steps = [0, s0] if cfg["start_hist"] else [s0]
                 a.verif_env = s0
+        # agents that bring a long `steps` history along (a population trained for many generations before): the
+        # early-stop test `len(pop[0].steps) >= 100` can fire in the first generations of this call
+        if cfg["hist_len"]:
+            for a in pop:
+                a.steps = [0] * max(0, int(cfg["hist_len"]) - len(a.steps)) + list(a.steps)
         budgets = list(cfg["budgets"]) if cfg["budgets"] else [cfg["max_steps"]]
         segs = []
         for ci, budget in enumerate(budgets):
@@ -504,6 +574,7 @@ def execute(cfg: dict) -> dict:
             seg["wall"] = round(time.time() - t0, 2)
             seg["form"] = rec.form
             seg["learn_raised"] = rec.learn_raised
+            seg["batch_problem"] = rec.batch_problem
             seg["gens"] = [{k: v for k, v in g.items()} for g in rec.gens]
             for g in seg["gens"]:
                 for s in g["slots"]:
@@ -685,6 +756,400 @@ class Pool:
         return results
 
 
+# ============================================================================================ evolution step
+EVO_BASE = dict(task="evo", algo="DQN", pop=3, gens=2, elitism=True, mutate_elite=False, save_elite=False,
+                elite_path=None, pass_algo=False, tsize=2, eval_loop=2, mut="mixed", seed=0, fault=None, timeout=120)
+EVO_FAULTS = {
+    # the classic slip: the selected population is dropped, the OLD one is mutated and returned
+    "evo-old-population": ("elite, population = tournament.select(population)", "elite, _sel = tournament.select(population)"),
+    # the returned list is not the whole mutated population
+    "evo-short-population": ("        population = mutation.mutation(population)\n\n    if save_elite",
+                      "        mutation.mutation(population)\n        population = population[:-1]\n\n    if save_elite"),
+}
+
+
+def execute_evo(cfg: dict) -> dict:
+    """several calls in a row of the real `tournament_selection_and_mutation` on a small real population whose members
+    have fitness / steps histories of different lengths; `tournament.select`, `rng.choice` and every mutation method
+    are wrapped to record what flowed where (object identities), nothing is replaced"""
+    import random
+
+    import numpy as np
+    import torch
+
+    import agents
+    c = dict(EVO_BASE)
+    c.update(cfg)
+    res: dict = {"status": "ok", "cfg": c, "steps": []}
+    tmp = tempfile.mkdtemp(prefix="c20evo_")
+    cwd = os.getcwd()
+    try:
+        os.chdir(tmp)
+        seed = int(c["seed"])
+        random.seed(seed); np.random.seed(seed % (2 ** 32)); torch.manual_seed(seed)
+        import agilerl.utils.utils as U
+        from agilerl.hpo.mutation import Mutations
+        from agilerl.hpo.tournament import TournamentSelection
+        algo, n = c["algo"], int(c["pop"])
+        rng = random.Random(seed * 7919 + 13)
+        pop = [agents.build(algo, "vector", seed=seed + i, index=i, hp_config=agents.default_hp_config(algo))
+               for i in range(n)]
+        for i, a in enumerate(pop):
+            # distinct dyadic fitness histories of different lengths (the first entry names the lineage)
+            a.fitness = [float(i) + 0.5] + [rng.randrange(-8, 9) / 4.0 for _ in range(rng.randrange(0, 4))]
+            a.steps = [0] + sorted(rng.randrange(1, 50) for _ in range(rng.randrange(0, 3)))
+        tourn = TournamentSelection(int(c["tsize"]), bool(c["elitism"]), n, int(c["eval_loop"]))
+        mut = Mutations(**MUT_PRESETS[c["mut"]], mutate_elite=bool(c["mutate_elite"]), rand_seed=seed, device="cpu")
+        fn = U.tournament_selection_and_mutation
+        if c["fault"]:
+            fn, _ns = _faulty_train_fn(fn, *EVO_FAULTS[c["fault"]])
+        rec: dict = {}
+
+        def wrap_method(name, f):
+            def g(individual, *a, **k):
+                rec["calls"].append((name, id(individual)))
+                out = f(individual, *a, **k)
+                rec["returned"].append(id(out))
+                return out
+            g.verif_name = name
+            return g
+        names = [f.__name__ for f in mut.mut_options]
+        mut.mut_options = tuple(wrap_method(f.__name__, f) for f in mut.mut_options)
+        if not hasattr(mut.no_mutation, "verif_name"):
+            mut.no_mutation = wrap_method("no_mutation", mut.no_mutation)
+        real_select, real_choice = tourn.select, mut.rng.choice
+
+        def select(population):
+            rec["select_in"] = [id(a) for a in population]
+            elite, new = real_select(population)
+            rec["elite"], rec["selected"] = elite, list(new)
+            return elite, new
+
+        class _Rng:
+            def __getattr__(self, k):
+                return getattr(mut_rng, k)
+
+            def choice(self, options, size=None, p=None, **kw):
+                out = real_choice(options, size, p=p, **kw)
+                if "draw" not in rec and len(options) and all(hasattr(f, "verif_name") for f in options):
+                    # the population-level draw (the mutation methods make draws of their own)
+                    rec["draw"] = [getattr(f, "verif_name", "?") for f in out]
+                    rec["draw_n"], rec["n_options"] = size, len(options)
+                return out
+        mut_rng = mut.rng
+        mut.rng = _Rng()
+        tourn.select = select
+        for g in range(int(c["gens"])):
+            rec.clear()
+            rec.update(calls=[], returned=[])
+            old = list(pop)
+            old_ids = [id(a) for a in old]
+            pre = [dict(index=int(a.index), fitness=list(a.fitness), steps=list(a.steps), state=_eval_state(a)) for a in old]
+            kw = dict(env_name="Env", elite_path=c["elite_path"], save_elite=bool(c["save_elite"]))
+            if c["pass_algo"]:
+                kw["algo"] = "Custom"
+            before = set(os.listdir(tmp))
+            with contextlib.redirect_stdout(io.StringIO()):
+                new = fn(old, tourn, mut, **kw)
+            sel = rec.get("selected") or []
+            key = [tuple(p_["fitness"]) for p_ in pre]
+
+            def parent_of(a):
+                t = tuple(a.fitness)
+                return key.index(t) if t in key else -1
+            st = dict(
+                n_in=len(old), n_out=len(new),
+                select_in_is_old=rec.get("select_in") == old_ids,
+                old=[dict(index=p_["index"], fitness=p_["fitness"], steps=p_["steps"]) for p_ in pre],
+                elite_parent=parent_of(rec["elite"]) if "elite" in rec else -1,
+                sel_parents=[parent_of(a) for a in sel], sel_index=[int(a.index) for a in sel],
+                draw=rec.get("draw"), draw_n=rec.get("draw_n"), option_names=names,
+                calls=[(nm, [id(a) for a in sel].index(i) if i in [id(a) for a in sel] else
+                        (-2 - old_ids.index(i) if i in old_ids else -1)) for nm, i in rec["calls"]],
+                out=[dict(index=int(a.index), fitness=list(a.fitness), steps=list(a.steps), mut=str(a.mut),
+                          is_selected=([id(x) for x in sel].index(id(a)) if id(a) in [id(x) for x in sel] else -1),
+                          is_old=id(a) in old_ids, parent=parent_of(a),
+                          same_weights=(parent_of(a) >= 0 and _same_state(_eval_state(a), pre[parent_of(a)]["state"])))
+                     for a in new],
+                files=sorted(set(os.listdir(tmp)) - before),
+            )
+            res["steps"].append(st)
+            for f in st["files"]:
+                os.remove(os.path.join(tmp, f))
+            pop = list(new)
+            # what a generation of training does to the bookkeeping before the next call
+            for i, a in enumerate(pop):
+                a.steps[-1] += 10 * (i + 1)
+                a.fitness.append(float(100 * (g + 1) + i) + rng.randrange(0, 4) / 4.0)
+                a.steps.append(a.steps[-1])
+    except BaseException as e:   # noqa: BLE001
+        res["status"] = "raised"
+        res["exc"] = f"{type(e).__name__}: {e}"
+        res["where"] = traceback.format_exc()[-900:]
+    finally:
+        os.chdir(cwd)
+        shutil.rmtree(tmp, ignore_errors=True)
+    return res
+
+
+def execute_evo_accel(cfg: dict) -> dict:
+    """the accelerator paths of the real `tournament_selection_and_mutation` with a stub accelerator, stub selection /
+    mutation objects and duck-typed agents (no torch): which objects are returned, what is saved and loaded where, on the
+    main process and on another process, with `save_elite` on and off"""
+    res: dict = {"status": "ok", "cfg": dict(cfg), "runs": []}
+    tmp = tempfile.mkdtemp(prefix="c20acc_")
+    cwd = os.getcwd()
+    try:
+        os.chdir(tmp)
+        import agilerl.utils.utils as U
+        for main in (True, False):
+            for save_elite in (False, True):
+                log: list = []
+
+                class A:
+                    def __init__(self, name):
+                        self.name = name
+
+                    def unwrap_models(self):
+                        log.append(("unwrap", self.name))
+
+                    def wrap_models(self):
+                        log.append(("wrap", self.name))
+
+                    def load_checkpoint(self, p):
+                        log.append(("load", self.name, p))
+
+                    def save_checkpoint(self, p):
+                        log.append(("save", self.name, p))
+
+                class Acc:
+                    is_main_process = main
+
+                    def wait_for_everyone(self):
+                        pass
+
+                class T:
+                    def select(self, population):
+                        log.append(("select", [a.name for a in population]))
+                        return A("elite"), [A(f"sel{i}") for i in range(len(population))]
+
+                class Mu:
+                    def mutation(self, population):
+                        log.append(("mutate", [a.name for a in population]))
+                        return population
+                pop = [A(f"old{i}") for i in range(int(cfg.get("pop", 3)))]
+                run = {"main": main, "save_elite": save_elite}
+                try:
+                    with contextlib.redirect_stdout(io.StringIO()):
+                        out = U.tournament_selection_and_mutation(pop, T(), Mu(), "Env", algo="Algo", save_elite=save_elite,
+                                                                  accelerator=Acc())
+                    run.update(out=[a.name for a in out], log=[list(x) for x in log])
+                except BaseException as e:   # noqa: BLE001
+                    run.update(exc=f"{type(e).__name__}: {e}", log=[list(x) for x in log])
+                res["runs"].append(run)
+    except BaseException as e:   # noqa: BLE001
+        res["status"] = "raised"
+        res["exc"] = f"{type(e).__name__}: {e}"
+    finally:
+        os.chdir(cwd)
+        shutil.rmtree(tmp, ignore_errors=True)
+    return res
+
+
+def probe_accel(chk: Check, pool: Pool) -> None:
+    """`Loop.Evo.evoStep` on the accelerator paths, as far as duck-typed agents can show it: the main process returns
+    the mutated selected members and saves the temporary files, then (iff save_elite) the elite `select` returned; every
+    other process returns its old members reloaded from those files and saves nothing.  A raise on a process that is
+    not the main one with save_elite=True is the (fixed) finding C20-save-elite-non-main-process."""
+    n = 3
+    r = pool.map([("acc", dict(task="evo-accel", pop=n))])["acc"]
+    if r["status"] != "ok":
+        raise InfraError(f"C20 accelerator probe could not run: {r.get('exc')} {r.get('trace', '')}")
+    bad = 0
+    for run in r["runs"]:
+        key = ["evo-accel", run["main"], run["save_elite"]]
+        chk.case(key, nontrivial=True, tags=["evo:accelerator"])
+        replay = {"cfg": {"task": "evo-accel", "pop": n}, "run": run,
+                  "correspondence": "harness/c20.py accelerator probe vs Loop.Evo.evoStep (Model/Loop.lean)"}
+        if "exc" in run:
+            if not run["main"] and run["save_elite"] and "UnboundLocalError" in run["exc"]:
+                chk.finding("C20-save-elite-non-main-process", run["exc"], replay)
+            else:
+                chk.violation(f"tournament_selection_and_mutation with an accelerator (main process: {run['main']}, "
+                              f"save_elite: {run['save_elite']}) raised {run['exc']}", replay)
+            bad += 1
+            continue
+        temp = [f"models/Env/Algo_{i}.pt" for i in range(n)]
+        if run["main"]:
+            want_out = [f"sel{i}" for i in range(n)]
+            want_log = ([["unwrap", f"old{i}"] for i in range(n)] + [["select", [f"old{i}" for i in range(n)]],
+                        ["mutate", want_out]] + [["save", f"sel{i}", temp[i]] for i in range(n)]
+                        + [["wrap", f"sel{i}"] for i in range(n)]
+                        + ([["save", "elite", "Env-elite_Algo.pt"]] if run["save_elite"] else []))
+        else:
+            want_out = [f"old{i}" for i in range(n)]
+            want_log = ([["unwrap", f"old{i}"] for i in range(n)] + [["load", f"old{i}", temp[i]] for i in range(n)]
+                        + [["wrap", f"old{i}"] for i in range(n)])
+        if len(run["out"]) != n:
+            chk.violation(f"accelerator path (main process: {run['main']}): population of {n} came back with "
+                          f"{len(run['out'])} members", replay)
+            bad += 1
+        elif run["out"] != want_out or run["log"] != want_log:
+            chk.violation(f"accelerator path (main process: {run['main']}, save_elite: {run['save_elite']}) differs from "
+                          f"Loop.Evo.evoStep: returned {run['out']} / model {want_out}; events {run['log']} / model {want_log}",
+                          replay, no_input=(run["out"] == want_out))
+            bad += 1
+    chk.suite("evolution-step-accelerator", len(r["runs"]), bad)
+
+
+def evo_expected(c: dict, st: dict) -> dict:
+    """`Loop.Evo.evoStep` (no accelerator) re-stated on the recorded inputs — outcome of `select` (parents), the draw:
+    per member of the result (parent, index, applied method, fitness, steps), the files written"""
+    me = bool(c["mutate_elite"])
+    draw = list(st["draw"] or [])
+    applied = draw if me else (["no_mutation"] + draw[1:] if draw else None)      # `applied`
+    out = []
+    if applied is not None:
+        for i, (m, p, ix) in enumerate(zip(applied, st["sel_parents"], st["sel_index"])):   # `mutateWith` = zipWith
+            par = st["old"][p] if p >= 0 else None
+            out.append(dict(sel=i, parent=p, index=ix, method=m,
+                            fitness=par["fitness"] if par else None, steps=par["steps"] if par else None))
+    algo = "Custom" if c["pass_algo"] else c["algo"]
+    files = []
+    if c["save_elite"]:
+        ep = c["elite_path"]
+        files = [((ep.split(".pt")[0] if ep is not None else f"Env-elite_{algo}") + ".pt")]
+    return dict(out=out, files=files)
+
+
+def evo_judge(chk: Check, res: dict):
+    """(oracle problems, model/impl disagreement or None)"""
+    c = res["cfg"]
+    if res["status"] != "ok":
+        return [f"tournament_selection_and_mutation raised {res.get('exc')}"], None
+    problems, diff = [], None
+    for g, st in enumerate(res["steps"]):
+        w = f"call {g + 1}: "
+        out = st["out"]
+        # ---- the property itself, on the implementation's own outputs
+        if st["n_out"] != st["n_in"]:
+            problems.append(w + f"population of {st['n_in']} came back with {st['n_out']} members")
+        idx = [o["index"] for o in out]
+        if len(set(idx)) != len(idx):
+            problems.append(w + f"indices not distinct after the evolution step: {idx}")
+        if any(o["is_old"] for o in out):
+            problems.append(w + "a member of the OLD population was returned (the result must be the mutated selected population)")
+        if [o["is_selected"] for o in out] != list(range(len(out))):
+            problems.append(w + f"the result is not the selected population in order: positions {[o['is_selected'] for o in out]}")
+        if [k for _, k in st["calls"]] != list(range(len(st["sel_parents"]))):
+            problems.append(w + f"the mutation methods were not applied once to each selected member in order: {st['calls']}")
+        for i, o in enumerate(out):
+            p = o["parent"]
+            if p < 0 or o["fitness"] != st["old"][p]["fitness"] or o["steps"] != st["old"][p]["steps"]:
+                problems.append(w + f"member {i}: fitness / steps history is not its parent's (bookkeeping touched)")
+                break
+        if c["elitism"] and not c["mutate_elite"] and out:
+            o = out[0]
+            if not (o["parent"] == st["elite_parent"] and o["index"] == st["old"][o["parent"]]["index"]
+                    and o["mut"] == "None" and o["same_weights"]):
+                problems.append(w + f"mutate_elite=False but member 0 is not the unmutated elite "
+                                    f"(parent {o['parent']} vs elite {st['elite_parent']}, mut {o['mut']!r}, "
+                                    f"weights equal {o['same_weights']})")
+        # ---- the model on the recorded inputs
+        exp = evo_expected(c, st)
+        got = [dict(sel=o["is_selected"], parent=o["parent"], index=o["index"], fitness=o["fitness"], steps=o["steps"]) for o in out]
+        want = [{k: e[k] for k in ("sel", "parent", "index", "fitness", "steps")} for e in exp["out"]]
+        called = [nm for nm, _ in st["calls"]]
+        if diff is None and got != want:
+            diff = w + f"members differ from Loop.Evo.evoStep: impl {got} model {want}"
+        if diff is None and called != [e["method"] for e in exp["out"]]:
+            diff = w + f"methods applied {called}, model {[e['method'] for e in exp['out']]} (draw {st['draw']})"
+        if diff is None and st["draw_n"] != st["n_in"]:
+            diff = w + f"rng.choice drew {st['draw_n']} methods for {st['n_in']} members"
+        if diff is None and sorted(st["files"]) != sorted(exp["files"]):
+            diff = w + f"files written {st['files']}, model {exp['files']}"
+        for i, o in enumerate(out):
+            if i < len(called) and called[i] == "no_mutation" and not (o["mut"] == "None" and o["same_weights"]):
+                problems.append(w + f"member {i} went through no_mutation only but mut={o['mut']!r}, weights equal {o['same_weights']}")
+        # ---- Model/Loop.lean through the driver: select + mutate on the same outcome
+        e = st["elite_parent"]
+        parents = st["sel_parents"][1:] if c["elitism"] else st["sel_parents"]
+        if diff is None and e >= 0 and all(p >= 0 for p in parents):
+            flags = [int(m != "no_mutation") for m in (exp["out"] and [x["method"] for x in exp["out"]])]
+            if not c["mutate_elite"] and flags:
+                flags[0] = 0
+            lines = ["reset", f"loop cfg off 1000000 10 1 0 64 0 0 0 {int(bool(c['elitism']))} {int(bool(c['mutate_elite']))}"]
+            for a in st["old"]:
+                lines.append(f"loop agent {a['index']} {len(a['fitness'])} " + " ".join(str(int(x)) for x in a["steps"]))
+            lines.append(f"loop sel {e} " + " ".join(map(str, parents)) + " | " + " ".join(map(str, flags)))
+            ans = chk.driver.run(lines)[-1]
+            mine = ("idx " + " ".join(str(o["index"]) for o in out) + " | steps " + " ".join(str(int(o["steps"][-1])) for o in out)
+                    + " | fit " + " ".join(str(len(o["fitness"])) for o in out)
+                    + " | hist " + " ".join(str(len(o["steps"])) for o in out))
+            if not ans.startswith(mine + " | elite-carried"):
+                diff = w + f"Loop.select/mutate: model {ans!r} impl {mine!r}"
+            elif c["elitism"] and ans.endswith("elite-carried 1") and out and not out[0]["same_weights"]:
+                problems.append(w + "the model carries the elite unchanged, the implementation changed its evaluation networks")
+    return problems, diff
+
+
+def evo_cases(rng, tier: str) -> list[dict]:
+    cases = []
+    n = 14 if tier == "quick" else 40
+    sizes = [1, 2, 3, 4, 5, 6]
+    for k in range(n):
+        algo = ["DQN", "PPO", "MADDPG"][k % 3]
+        cases.append(dict(task="evo", algo=algo, pop=sizes[(k // 3 + k) % 6] if algo != "MADDPG" else sizes[k % 4],
+                          gens=rng.choice([2, 3]), elitism=rng.random() < 0.8, mutate_elite=bool(k % 2),
+                          save_elite=rng.random() < 0.5, elite_path=rng.choice([None, "best.pt", "sub.pt.bak.pt", "plain"]),
+                          pass_algo=rng.random() < 0.3, tsize=rng.choice([1, 2, 3]), eval_loop=rng.choice([1, 2, 3]),
+                          mut=rng.choice(["mixed", "mixed", "hp", "none", "params"]), seed=rng.randrange(10 ** 6)))
+    return cases
+
+
+def run_evo(chk: Check, pool: Pool, cases: list[dict], expect_detect: bool = False) -> int:
+    results = pool.map([(i, c) for i, c in enumerate(cases)])
+    ndiff = detected = 0
+    for i, c in enumerate(cases):
+        res = results[i]
+        if res["status"] in ("infra", "crash", "timeout"):
+            raise InfraError(f"C20 evolution-step case did not run: {res.get('exc')} {res.get('trace', '')}")
+        problems, diff = evo_judge(chk, res)
+        if not expect_detect:
+            st0 = res["steps"][0] if res.get("steps") else {}
+            chk.case(c, nontrivial=len(res.get("steps", [])) >= 2,
+                     tags=["evo:" + c["algo"], f"evo:pop{c['pop']}", "evo:mutate_elite" if c["mutate_elite"] else "evo:keep_elite",
+                           "evo:save_elite" if c["save_elite"] else "evo:no_save"],
+                     sample={"evo": {k: v for k, v in c.items() if EVO_BASE.get(k) != v}, "draw": st0.get("draw"),
+                             "parents": st0.get("sel_parents"), "files": st0.get("files")})
+        if not problems and diff is None:
+            continue
+        if expect_detect:
+            detected += 1
+            continue
+        ndiff += diff is not None
+        small = dict(c)
+        for k, v in (("gens", 1), ("save_elite", False), ("pass_algo", False), ("pop", 2), ("pop", 1), ("mut", "none")):
+            t = dict(small, **{k: v})
+            r = pool.map([("s", t)])["s"]
+            p2, d2 = evo_judge(chk, r) if r["status"] not in ("infra", "crash", "timeout") else ([], None)
+            if bool(p2) == bool(problems) and (p2 or d2 is not None):
+                small, res, problems, diff = t, r, p2, d2
+        replay = {"cfg": small, "status": res["status"], "exc": res.get("exc"), "where": res.get("where"),
+                  "oracle_problems": problems, "diff": diff, "steps": res.get("steps"),
+                  "correspondence": "harness/c20.py evolution step vs Loop.Evo.evoStep (Model/Loop.lean)",
+                  "theorems": chk.gate["theorems"]}
+        if problems:
+            chk.violation(problems[0], replay)
+        else:
+            chk.violation(f"implementation and the evolution-step model disagree: {diff}; the property oracle holds on "
+                          f"this configuration and its shrinks", replay, no_input=True)
+    if not expect_detect:
+        chk.suite("evolution-step", len(cases), ndiff)
+    return detected
+
+
+
 # ============================================================================================ model
 def model_lines(res: dict) -> tuple[list[str], list[str]]:
     """(driver ops, what the implementation showed for each op), all calls one after the other"""
@@ -793,6 +1258,8 @@ def oracle_seg(res: dict) -> list[str]:
     if res["status"] != "ok":
         raise InfraError(f"C20 worker failure: {res.get('exc')} {res.get('trace', '')}")
     out = []
+    if res.get("batch_problem"):
+        out.append(f"{c['loop']} x {c['algo']} x {c['mem']}: {res['batch_problem']}")
     f, gens, n = res["final"], res["gens"], c["pop"]
     G = len(gens)
     init = res.get("initial") or []
@@ -952,6 +1419,35 @@ def gen_cases(rng, tier: str) -> list[dict]:
     # --- early stopping: len(steps) reaches 100 long before the budget
     add(loop="off", algo="DQN", num_envs=2, evo_steps=2, max_steps=1000, eval_steps=1, target=-1.0, learn_step=2,
         batch_size=4, timeout=150)
+    # --- runs that END BY EARLY STOP, every loop: the population already carries a `steps` history of 98 / 99 / 100
+    #     entries (the early-stop test needs len(steps) >= 100: it fires in generation 2 / 1 / 1) and the target is
+    #     exceeded from the first evaluation on; one fitness row per evaluated generation, also for the last one
+    early_kw = {
+        "off": dict(algo=rng.choice(["DQN", "DDPG", "RainbowDQN"]), num_envs=2, evo_steps=10, learn_step=2),
+        "on": dict(algo="PPO", num_envs=2, evo_steps=10, learn_step=4),
+        "offline": dict(algo="CQN", evo_steps=5),
+        "bandit": dict(algo=rng.choice(["NeuralUCB", "NeuralTS"]), episode_steps=6, evo_steps=12, eval_steps=3),
+        "maoff": dict(algo="MADDPG", kind="box", num_envs=2, evo_steps=10, learn_step=2),
+        "maon": dict(algo="IPPO", kind="box", num_envs=2, evo_steps=10, learn_step=4),
+    }
+    for lp, kw in early_kw.items():
+        add(loop=lp, target=-1000.0, hist_len=rng.choice([98, 99, 100]), max_steps=400, tm=rng.random() < 0.4, mut="none",
+            ckpt=rng.choice([None, 7]), **kw)
+    # --- offline datasets of every size relative to the memory capacity: smaller, equal, between 1x and 2x,
+    #     exactly 2x, more than 2x, many times (train_offline loads dataset_length - 1 transitions before training)
+    cap_o = rng.choice([8, 16])
+    for n_rows in (cap_o - 3, cap_o + 1, cap_o + cap_o // 2, 2 * cap_o + 1, 3 * cap_o + 2, 5 * cap_o + 1):
+        add(loop="offline", algo=rng.choice(["CQN", "DQN"]), cap=cap_o, dataset_n=n_rows, batch_size=rng.choice([2, 4]),
+            evo_steps=3, max_steps=6, pop=rng.choice([1, 2]))
+    # --- degenerate but legal sizes: batch_size 1, num_envs 1, population 1, learn_step 1 - with the uniform, n-step
+    #     and prioritised memories (what learn() receives must still be batches of batch_size rows)
+    for mem_ in ("uniform", "nstep", "per", "per_nstep"):
+        add(loop="off", algo="RainbowDQN", mem=mem_, batch_size=1, num_envs=rng.choice([1, 2]), learn_step=1,
+            pop=rng.choice([1, 2]), evo_steps=8, max_steps=16, nstep=rng.choice([2, 3]))
+    add(loop="off", algo=rng.choice(["DQN", "DDPG", "TD3"]), batch_size=1, num_envs=1, learn_step=1, pop=1, evo_steps=6, max_steps=12)
+    add(loop="offline", algo="CQN", batch_size=1, pop=1, evo_steps=3, max_steps=6)
+    add(loop="maoff", algo="MADDPG", kind="box", batch_size=1, num_envs=None, learn_step=1, pop=1, evo_steps=6, max_steps=12)
+    add(loop="bandit", algo="NeuralUCB", batch_size=1, pop=1, learn_step=1, episode_steps=4, evo_steps=8, max_steps=8, eval_steps=2)
     # --- populations that already carry steps: every training function is called again on the population it
     #     returned (larger budget, then an already exhausted one -> 0 generations), and on agents whose `steps`
     #     are non-zero on entry (as after loading a checkpoint), equal or unequal across the population
@@ -1363,10 +1859,21 @@ def selftest(chk: Check, pool: Pool) -> None:
         ("steps+1", dict(loop="off", algo="DQN", num_envs=2, fault="steps+1", max_steps=30, evo_steps=10)),
         ("fitness-twice", dict(loop="off", algo="DQN", num_envs=2, fault="fitness-twice")),
         ("short-selection", dict(loop="off", algo="DQN", num_envs=2, fault="short-selection", tm=True, pop=3, mut="none")),
+        ("early-stop-drops-row", dict(loop="off", algo="DQN", num_envs=2, fault="early-stop-drops-row", target=-1000.0,
+                                      hist_len=99, evo_steps=10, max_steps=400)),
+        ("offline-load-overflow", dict(loop="offline", algo="CQN", fault="offline-load-overflow", cap=8, dataset_n=26,
+                                       batch_size=2, evo_steps=3, max_steps=6)),
+        ("nstep-unbatched", dict(loop="off", algo="RainbowDQN", mem="nstep", batch_size=1, num_envs=1, learn_step=1,
+                                 fault="nstep-unbatched", evo_steps=8, max_steps=16)),
     ]
     for name, cfg in faults:
         if run_cases(chk, pool, [cfg], "selftest", expect_detect=True) != 1:
             raise InfraError(f"C20 self-test: seeded fault {name!r} was not noticed")
+        chk.notes.append(f"self-test: seeded fault {name} detected")
+    for name in EVO_FAULTS:
+        cfg = dict(task="evo", algo="DQN", pop=3, gens=2, mutate_elite=False, mut="params", fault=name, seed=5)
+        if run_evo(chk, pool, [cfg], expect_detect=True) != 1:
+            raise InfraError(f"C20 self-test: seeded fault {name!r} of the evolution step was not noticed")
         chk.notes.append(f"self-test: seeded fault {name} detected")
 
 
@@ -1380,6 +1887,11 @@ def pre_gate(chk: Check) -> None:
     common.translation_gate(chk, py2lean_loop, "Gen/LoopGen.lean", ["Gen.LoopGen", "Proofs.LoopGenEq", "Props.C20"],
                             "counter slice of the six training functions: loop structure, integer counters, budget "
                             "test, learn scheduling, events in order")
+    import py2lean_evostep
+    common.translation_gate(chk, py2lean_evostep, "Gen/EvoStepGen.lean",
+                            ["Gen.EvoStepGen", "Proofs.EvoStepGenEq", "Props.C20"],
+                            "tournament_selection_and_mutation (both accelerator paths, save_elite) and the "
+                            "population-level skeleton of Mutations.mutation")
 
 
 def run(chk: Check) -> None:
@@ -1402,7 +1914,9 @@ def run(chk: Check) -> None:
     workers = max(2, min(12, (os.cpu_count() or 4) - 2))
     with Pool(workers) as pool:
         compat_table(chk, pool)
-        run_cases(chk, pool, cases, "train-loops")
+        run_cases(chk, pool, [c for c in cases if c.get("task") != "evo"], "train-loops")
+        run_evo(chk, pool, [c for c in cases if c.get("task") == "evo"] + evo_cases(chk.rng, chk.tier))
+        probe_accel(chk, pool)
         probes(chk, pool)
         if chk.tier == "thorough":
             selftest(chk, pool)
@@ -1412,6 +1926,19 @@ def replay(chk: Check, path: str) -> int:
     c = json.loads(open(path).read())
     c = c.get("replay", c)
     cfg = c.get("cfg", c)
+    if cfg.get("task") == "evo":
+        with Pool(1) as pool:
+            res = pool.map([("r", cfg)])["r"]
+        problems, diff = evo_judge(chk, res)
+        print(json.dumps({"status": res["status"], "exc": res.get("exc"), "oracle_problems": problems, "diff": diff,
+                          "steps": res.get("steps")}, indent=1, default=str))
+        if problems:
+            print(f"VIOLATION property={PID} replay={path}")
+            return 1
+        if diff is not None:
+            print(f"VIOLATION property={PID} replay={path} no-failing-input-found")
+            return 1
+        return 0
     with Pool(1) as pool:
         res = pool.map([("r", cfg)])["r"]
     problems, diff, ops, impl, model = judge(chk, res)
